@@ -54,17 +54,17 @@ ASSUMPTIONS = [
 
 def requirements(tier):
     q = tier == 'quick'
-    return {'models': 2500 if q else 30000,
-            'documents': 30000 if q else 400000,
-            'loads': 150000 if q else 2000000,
-            'order_groups_compared': 30000 if q else 400000,
-            'groups_with_2plus_orders': 25000 if q else 350000,
-            'ref_judged': 25000 if q else 350000,
-            'ref_ambiguous_rejected': 1000 if q else 15000,
-            'ref_tag_disambiguated': 300 if q else 4000,
-            'ref_tag_conflict': 2000 if q else 30000,
-            'accepted_polymorphic': 3000 if q else 40000,
-            'union_permutations': 15000 if q else 200000}
+    return {'models': 2000 if q else 25000,
+            'documents': 22000 if q else 280000,
+            'loads': 100000 if q else 1300000,
+            'order_groups_compared': 22000 if q else 280000,
+            'groups_with_2plus_orders': 22000 if q else 280000,
+            'ref_judged': 20000 if q else 260000,
+            'ref_ambiguous_rejected': 800 if q else 10000,
+            'ref_tag_disambiguated': 500 if q else 6000,
+            'ref_tag_conflict': 4000 if q else 50000,
+            'accepted_polymorphic': 2500 if q else 32000,
+            'union_permutations': 30000 if q else 400000}
 
 
 SCALAR_T = ['int', 'str', 'float', 'bool']
